@@ -36,7 +36,7 @@ Proof using Hh Hm. exact (equivariant_energy_from_tof h mn Hh Hm). Qed.
 Theorem C07_equivariant_dspacing_from_tof : forall t st L sL th sth t' st' L' sL' th' sth' dt dL dth,
   t > 0 -> st > 0 -> L > 0 -> sL > 0 -> sth > 0 -> 0 < th * sth <= PI ->
   t' > 0 -> st' > 0 -> L' > 0 -> sL' > 0 -> sth' > 0 ->
-  is_num dt = true -> is_num dL = true -> is_float dth = true ->
+  is_num dt = true -> is_num dL = true -> is_num dth = true ->
   t * st = t' * st' -> L * sL = L' * sL' -> th * sth = th' * sth' ->
   exists p,
     is_qty h mn (dspacing_from_tof O (tv t st d_s dt) (tv L sL d_m dL) (tv th sth d_rad dth)) p angstrom d_m (fdt dt) /\
@@ -45,7 +45,7 @@ Proof using Hh Hm. exact (equivariant_dspacing_from_tof h mn Hh Hm). Qed.
 
 Theorem C07_equivariant_Q_from_wavelength : forall l sl th sth l' sl' th' sth' dl dth,
   l > 0 -> sl > 0 -> sth > 0 -> 0 < th * sth <= PI -> l' > 0 -> sl' > 0 -> sth' > 0 ->
-  is_float dl = true -> is_float dth = true -> l * sl = l' * sl' -> th * sth = th' * sth' ->
+  is_float dl = true -> is_num dth = true -> l * sl = l' * sl' -> th * sth = th' * sth' ->
   exists p,
     is_qty h mn (Q_from_wavelength O (tv l sl d_m dl) (tv th sth d_rad dth)) p (1 / sl) d_invm (fdt dl) /\
     is_qty h mn (Q_from_wavelength O (tv l' sl' d_m dl) (tv th' sth' d_rad dth)) p (1 / sl') d_invm (fdt dl).
